@@ -51,7 +51,10 @@ def check(case):
 
 @st.composite
 def cases(draw, max_feats):
-    return {"model": draw(S.model_specs(S.UVL, 1, max_feats)), "cycles": draw(st.integers(3, 5))}
+    m_ = draw(S.model_specs(S.UVL, 1, max_feats))
+    if draw(st.integers(0, 9)) == 0:
+        S.concatenation_twins(draw, m_)
+    return {"model": m_, "cycles": draw(st.integers(3, 5))}
 
 
 def _odd(n):
@@ -103,7 +106,15 @@ def classes(case):
     return out
 
 
+@st.composite
+def big_cases(draw):
+    """Models of several hundred features (files of tens of kilobytes): block-wise or incremental readers/writers."""
+    return {"model": draw(S.model_specs(S.UVL, 80, 140)), "cycles": 3}
+
+
 SUBS = [
+    Sub("big-models", check, gen=lambda tier: big_cases(), nontrivial=lambda case: True, classes=lambda case: {"big-model"},
+        n={"quick": 1, "thorough": 30}, shards={"quick": 8, "thorough": 16}),
     Sub("roundtrip", check, gen=lambda tier: cases(25 if tier == "thorough" else 12), nontrivial=nontrivial, classes=classes,
         n={"quick": 100, "thorough": 1200},
         essential=["name:keyword", "name:operator-word", "name:needs-quotes", "name:non-ascii",
